@@ -528,20 +528,30 @@ class Py2Cpp(ITranspiler):
 		else:
 			return self.proc_for_each(node, symbols, for_in, statements)
 
+	def proc_index_arguments(self, node: defs.FuncCall, arguments: list[str]) -> list[str]:
+		"""先頭の実引数(インデックス)は `begin() + index` の右辺として出力されるため、加算以下の優先順位の式は括弧で囲む"""
+		if len(arguments) == 0:
+			return arguments
+
+		return [self.proc_operand(node.arguments[0].value, arguments[0], CppPrecedences.by_operator('+'), True), *arguments[1:]]
+
 	def proc_for_range(self, node: defs.For, symbols: list[str], for_in: str, statements: list[str]) -> str:
 		# 期待値1: 'range(size)'
 		# 期待値2: 'range(begin, size)'
 		# 期待値3: 'range(begin, size, step)'
-		args_num = len(node.iterates.as_a(defs.FuncCall).arguments)
+		arg_nodes = node.iterates.as_a(defs.FuncCall).arguments
+		args_num = len(arg_nodes)
 		join_args = PatternParser.pluck_func_call_arguments(for_in)
+		# sizeは `symbol < size` の右辺として出力されるため、比較以下の優先順位の式は括弧で囲む
+		size_of = lambda index, size: self.proc_operand(arg_nodes[index].value, size, CppPrecedences.by_operator('<'), True)
 		if args_num == 1:
-			return self.render(node, f'flow/{node.classification}/range', vars={'symbol': symbols[0], 'begin': 0, 'size': join_args, 'step': 1, 'statements': statements})
+			return self.render(node, f'flow/{node.classification}/range', vars={'symbol': symbols[0], 'begin': 0, 'size': size_of(0, join_args), 'step': 1, 'statements': statements})
 		elif args_num == 2:
 			begin, size = BlockParser.break_separator(join_args, ',')
-			return self.render(node, f'flow/{node.classification}/range', vars={'symbol': symbols[0], 'begin': begin, 'size': size, 'step': 1, 'statements': statements})
+			return self.render(node, f'flow/{node.classification}/range', vars={'symbol': symbols[0], 'begin': begin, 'size': size_of(1, size), 'step': 1, 'statements': statements})
 		else:
 			begin, size, step = BlockParser.break_separator(join_args, ',')
-			return self.render(node, f'flow/{node.classification}/range', vars={'symbol': symbols[0], 'begin': begin, 'size': size, 'step': step, 'statements': statements})
+			return self.render(node, f'flow/{node.classification}/range', vars={'symbol': symbols[0], 'begin': begin, 'size': size_of(1, size), 'step': step, 'statements': statements})
 
 	def proc_for_enumerate(self, node: defs.For, symbols: list[str], for_in: str, statements: list[str]) -> str:
 		# 期待値: 'enumerate(arguments...)'
@@ -1141,11 +1151,11 @@ class Py2Cpp(ITranspiler):
 			# 期待値: 'receiver.pop'
 			receiver, operator = PatternParser.break_relay(calls)
 			var_type = self.to_accessible_name(cast(IReflection, context))
-			return self.render(node, f'{node.classification}/{spec.name}_{context_name}', vars={**func_call_vars, 'receiver': receiver, 'operator': operator, 'var_type': var_type})
+			return self.render(node, f'{node.classification}/{spec.name}_{context_name}', vars={**func_call_vars, 'arguments': self.proc_index_arguments(node, arguments), 'receiver': receiver, 'operator': operator, 'var_type': var_type})
 		elif spec == FuncCallSpec.Tags.list and context_name == list.insert.__name__:
 			# 期待値: 'receiver.insert'
 			receiver, operator = PatternParser.break_relay(calls)
-			return self.render(node, f'{node.classification}/{spec.name}_{context_name}', vars={**func_call_vars, 'receiver': receiver, 'operator': operator})
+			return self.render(node, f'{node.classification}/{spec.name}_{context_name}', vars={**func_call_vars, 'arguments': self.proc_index_arguments(node, arguments), 'receiver': receiver, 'operator': operator})
 		elif spec == FuncCallSpec.Tags.list and context_name == list.extend.__name__:
 			# 期待値: 'receiver.extend'
 			receiver, operator = PatternParser.break_relay(calls)
